@@ -19,13 +19,15 @@ LEVEL_TEXT = ('Integrator/grid invariance needs the numerical solution and is no
               'non-dimensionalise then re-dimensionalise is the identity on all five arrays and four scalars; the solution-type layout is written and read with the same index polynomial.')
 LEVEL_NOTE = ('Trusted: front-end, interpreter, the assignment of physical dimensions to inputs (radius m, density kg m-3, moduli Pa, gravity m s-2, frequency s-1, G m3 kg-1 s-2; y1,y3 s2 m-1; y2,y4 kg m-3; y5 1; y6,y7 m-1). '
               'The absolute integration tolerance `atol` is a dimensional number applied to non-dimensional and dimensional solves alike (assumption, affects accuracy only).')
-EXPLANATION = 'R03.1 non-dim o re-dim == identity and conversion factors carry the right dimension; R03.2 scaling covariance of all kernels; R03.3 solution layout agreement (writer collapse for every layer kind, readers by interpretation); R03.4 sibling unit system; R03.5 reciprocity: W(tidal, loading) conserved in every layer kind, continuous across interfaces, and equal to (2l+1)R/(4 pi G) [k_t - h_t - k_load] at the surface.'
+EXPLANATION = 'R03.1 non-dim o re-dim == identity and conversion factors carry the right dimension; R03.2 scaling covariance of all kernels; R03.3 solution layout agreement (writer collapse for every layer kind, readers by interpretation); R03.4 sibling unit system; R03.6 every requested type gets the Love numbers of its own assembled solution; R03.7 dimensional homogeneity of the arithmetic of the driver itself (unit inference); R03.8 the conversion helpers return the same values whichever planet was converted before (no stale module-level cache); R03.5 reciprocity: W(tidal, loading) conserved in every layer kind, continuous across interfaces, and equal to (2l+1)R/(4 pi G) [k_t - h_t - k_load] at the surface.'
 
 
 def run(chk):
     repo = Repo(chk.repo)
     d = X.Decider(seed=chk.seed, k=2 if chk.tier == 'quick' else 6)
     eq = make_eq(chk, d)
+    call_history(chk, repo, d)
+    chk.floor('R03.8', 6)
     roundtrip(chk, repo, d, eq)
     ode_cov(chk, repo, d)
     start_cov(chk, repo, d)
@@ -39,6 +41,24 @@ def run(chk):
     legacy_solver.nondimensional(chk, repo, X.Decider(seed=chk.seed, k=3), 'R03.4')
     chk.floor('R03.4', 14)
     chk.floor('R03.1', 15); chk.floor('R03.2', 48); chk.floor('R03.3', 7)
+    # ---- R03.6 a solution type requested together with others gets the Love numbers of its own assembled solution (whole-driver symbolic execution, dimensional and
+    #      non-dimensionalised)
+    from . import solver_whole as SW
+    SW.guarded(chk, 'C03', lambda: SW.assembled(chk, repo, None, None, 'R03.6'))
+    # ---- R03.7 the driver's own arithmetic is dimensionally homogeneous (it runs the same statements on dimensional and on non-dimensionalised inputs)
+    from .common import unit_lint, need_func
+    ms_ = repo.by_path('TidalPy/RadialSolver/solver.pyx')
+    fdrv = need_func(ms_, 'cf_radial_solver')
+    LEN = (0, 1, 0)
+    src = {'radius_array_ptr': LEN, 'density_array_ptr': (1, -3, 0), 'gravity_array_ptr': (0, 1, -2), 'bulk_modulus_array_ptr': (1, -1, -2), 'complex_shear_modulus_array_ptr': (1, -1, -2),
+           'frequency': (0, 0, -1), 'planet_bulk_density': (1, -3, 0), 'upper_radius_by_layer_ptr': LEN}
+    have = {a.arg for a in fdrv.args.args}
+    src = {k: v for k, v in src.items() if k in have}
+    if len(src) < 6:
+        raise AnalysisError('cf_radial_solver: the dimensional parameters of the driver were renamed; unit inference has no sources')
+    nchk = unit_lint(chk, repo, 'R03.7', ms_, fdrv, src, 'cf_radial_solver, dimensional mode', assume={'nondimensionalize': False})
+    if nchk < 3:
+        raise AnalysisError(f'cf_radial_solver: unit inference reached only {nchk} sums / comparisons (front-end lost sight of the slice bookkeeping)')
 
 
 def Gatom_hook(itp, mod, nm):
@@ -47,11 +67,58 @@ def Gatom_hook(itp, mod, nm):
     return None
 
 
+# ------------------------------------------------------------------------------------------------ R03.8
+def call_history(chk, repo, d):
+    """The (re-)non-dimensionalisation helpers are called once per solve; what they return for a planet must not depend on which planets were solved before in the
+    same process (module-level caches).  Planet B is converted after planet A -- same bulk density, different radius; then different density, same radius -- in one
+    interpreter (module state persists) and compared with planet B converted in a fresh one."""
+    md = repo.by_path('TidalPy/utilities/dimensions/nondimensional.pyx')
+    fn_ = need_func(md, 'cf_non_dimensionalize_physicals'); fr_ = need_func(md, 'cf_redimensionalize_physicals')
+    names = ('radius', 'density', 'gravity', 'bulk', 'shear')
+
+    def branch_hook(itp, st, v, fr):
+        # `a == b` / `a != b` on symbolic values: equal iff identically equal (generic planets)
+        if isinstance(v, X.Node) and v.op == 'cmp' and v.val in ('==', '!='):
+            same = d.equal(v.args[0], v.args[1])
+            return same if v.val == '==' else not same
+        return None
+
+    def convert(it, planet, which):
+        R, rho, w = planet
+        arrays = {nm: Arr(nm) for nm in names}
+        for nm in names:
+            for i in range(2): arrays[nm].store[i] = X.atom(f'{nm}{i}', 'complex' if nm == 'shear' else 'pos')
+        fr0 = Frame(md, 'caller'); outs = {}
+        for nm in ('R_use', 'rho_use', 'w_use', 'G_use'):
+            fr0.vars[nm] = Opaque('nan'); outs[nm] = Ref(fr0, nm)
+        args = [2, w, R, rho] + [arrays[nm] for nm in names] + [outs['R_use'], outs['rho_use'], outs['w_use'], outs['G_use']]
+        it.call(md, fn_ if which == 'non-dimensionalise' else fr_, args)
+        return {**{f'{nm}[{i}]': arrays[nm].store[i] for nm in names for i in range(2)}, **{k: fr0.vars[k] for k in outs}}
+    w = X.atom('freq', 'pos')
+    Ra, Rb = X.atom('R_planetA', 'pos'), X.atom('R_planetB', 'pos'); ra, rb = X.atom('rho_planetA', 'pos'), X.atom('rho_planetB', 'pos')
+    for which in ('non-dimensionalise', 're-dimensionalise'):
+        for lab, first, second in (('same bulk density, different radius', (Ra, ra, w), (Rb, ra, w)), ('same radius, different bulk density', (Ra, ra, w), (Ra, rb, w)),
+                                   ('different radius and bulk density', (Ra, ra, w), (Rb, rb, w))):
+            it = Interp(repo, hooks={'global': Gatom_hook, 'branch': branch_hook})
+            convert(it, first, which)
+            got = convert(it, second, which)
+            ref = convert(Interp(repo, hooks={'global': Gatom_hook, 'branch': branch_hook}), second, which)
+            bad = [k for k in ref if not (isinstance(got.get(k), X.Node) and isinstance(ref[k], X.Node) and d.equal(got[k], ref[k]))]
+            chk.ob('R03.8', f'{which} a planet after another one ({lab}): same values as in a fresh process', not bad, f'differs in {bad[:4]}: the conversion depends on the planet solved before', md.where(fn_ if which.startswith('non') else fr_),
+                   key=f'R03.8|{which}|{lab}', method='two calls in one interpreter state vs a fresh one, GF(p^2) PIT')
+
+
 # ------------------------------------------------------------------------------------------------ R03.1
 def roundtrip(chk, repo, d, eq):
     md = repo.by_path('TidalPy/utilities/dimensions/nondimensional.pyx')
     fn_ = need_func(md, 'cf_non_dimensionalize_physicals'); fr_ = need_func(md, 'cf_redimensionalize_physicals'); fy = need_func(md, 'cf_redimensionalize_radial_functions')
-    it = Interp(repo, hooks={'global': Gatom_hook})
+    def eq_hook(itp, st, v, fr):
+        # `a == b` / `a != b` on symbolic values (cache keys): equal iff identically equal
+        if isinstance(v, X.Node) and v.op == 'cmp' and v.val in ('==', '!='):
+            same = d.equal(v.args[0], v.args[1])
+            return same if v.val == '==' else not same
+        return None
+    it = Interp(repo, hooks={'global': Gatom_hook, 'branch': eq_hook})
     D = S.Dims()
     w = D.atom('freq', 'pos', s=-1); R = D.atom('Rmean', 'pos', m=1); rho = D.atom('rho_bulk', 'pos', kg=1, m=-3)
     D.d[('Gconst', 'pos')] = S.GRAV_G
